@@ -7,6 +7,7 @@ package main
 import (
 	"fmt"
 	"go/types"
+	"os"
 	"strings"
 
 	"golang.org/x/tools/go/ssa"
@@ -34,37 +35,37 @@ func (e *Enc) isPurePkg(fn *ssa.Function) bool {
 // of the heap reachable from them) that writes nothing the caller can observe.
 // This is an assumption about dependencies and is listed in every evidence file.
 var purePackages = map[string]string{
-	"strings":       "stdlib string functions are side-effect free",
-	"strconv":       "stdlib conversions are side-effect free",
-	"unicode":       "pure",
-	"unicode/utf8":  "pure",
-	"unicode/utf16": "pure",
-	"log/slog":      "logging does not change program-visible state",
-	"fmt":           "formatting reads its arguments only",
-	"errors":        "error construction is side-effect free",
-	"github.com/pkg/errors": "error construction is side-effect free",
-	"math":          "pure",
-	"time":          "time formatting/reading does not write program-visible state (results depending on the clock are unconstrained)",
-	"reflect":       "reflection reads only (TypeOf)",
-	"net/url":       "URL parsing is side-effect free",
-	"regexp":        "matching is side-effect free",
-	"encoding/base64": "side-effect free",
-	"github.com/evanphx/json-patch": "DecodePatch / Patch.Apply read their inputs and return new values",
-	"encoding/json": "Marshal reads its argument only (Unmarshal is modelled separately)",
-	"github.com/go-jose/go-jose/v3/json": "Marshal reads its argument only (Unmarshal is modelled separately)",
-	"github.com/btcsuite/btcutil/base58": "side-effect free",
+	"strings":                              "stdlib string functions are side-effect free",
+	"strconv":                              "stdlib conversions are side-effect free",
+	"unicode":                              "pure",
+	"unicode/utf8":                         "pure",
+	"unicode/utf16":                        "pure",
+	"log/slog":                             "logging does not change program-visible state",
+	"fmt":                                  "formatting reads its arguments only",
+	"errors":                               "error construction is side-effect free",
+	"github.com/pkg/errors":                "error construction is side-effect free",
+	"math":                                 "pure",
+	"time":                                 "time formatting/reading does not write program-visible state (results depending on the clock are unconstrained)",
+	"reflect":                              "reflection reads only (TypeOf)",
+	"net/url":                              "URL parsing is side-effect free",
+	"regexp":                               "matching is side-effect free",
+	"encoding/base64":                      "side-effect free",
+	"github.com/evanphx/json-patch":        "DecodePatch / Patch.Apply read their inputs and return new values",
+	"encoding/json":                        "Marshal reads its argument only (Unmarshal is modelled separately)",
+	"github.com/go-jose/go-jose/v3/json":   "Marshal reads its argument only (Unmarshal is modelled separately)",
+	"github.com/btcsuite/btcutil/base58":   "side-effect free",
 	"github.com/multiformats/go-multibase": "side-effect free",
 	"github.com/multiformats/go-multihash": "side-effect free",
-	"crypto/elliptic": "curve parameter accessors are side-effect free",
-	"crypto/ecdsa": "verification is side-effect free",
-	"crypto/ed25519": "verification is side-effect free",
-	"golang.org/x/crypto/ed25519": "verification is side-effect free",
-	"crypto": "hash selection is side-effect free",
-	"github.com/btcsuite/btcd/btcec/v2": "curve accessors are side-effect free",
+	"crypto/elliptic":                      "curve parameter accessors are side-effect free",
+	"crypto/ecdsa":                         "verification is side-effect free",
+	"crypto/ed25519":                       "verification is side-effect free",
+	"golang.org/x/crypto/ed25519":          "verification is side-effect free",
+	"crypto":                               "hash selection is side-effect free",
+	"github.com/btcsuite/btcd/btcec/v2":    "curve accessors are side-effect free",
 	"github.com/decred/dcrd/dcrec/secp256k1/v4": "curve arithmetic is side-effect free",
-	"math/big": "big.Int constructors used here return fresh values",
+	"math/big":                       "big.Int constructors used here return fresh values",
 	repoModule + "/pkg/internal/log": "log field constructors only build slog attributes",
-	repoModule + "/pkg/log": "logger construction / level checks do not change program-visible state",
+	repoModule + "/pkg/log":          "logger construction / level checks do not change program-visible state",
 }
 
 func (f *Frame) setResult(x ssa.Value, vals []*Val, names []string) {
@@ -536,6 +537,22 @@ func (f *Frame) applyContract(x ssa.Value, fc *FuncContract, fn *ssa.Function, k
 			}
 		}
 		freshCalls[call] = fr
+	}
+	if os.Getenv("GOVC_AUDIT") != "" {
+		// audit (not part of any check): is a non-nil / non-empty result of this call possible at all?
+		// An unreachable one means the assumptions force the result to nil -- a sign of partial vacuity.
+		for i, v := range vals {
+			r := refOf(v.T, v.Typ)
+			if r == "" {
+				continue
+			}
+			e.addObl(&Obligation{Name: fmt.Sprintf("%s#cover.soft[result %d of %s is non-nil]", f.prefix, i, shortKey(key)), Kind: "cover.soft", Func: f.prefix,
+				Guard: and(f.guard(), not(eq(r, "nil"))), Goal: "false", IsCover: true, Text: "non-nil result possible", Pos: f.posOf(f.curInstr)})
+			if _, isSl := v.Typ.Underlying().(*types.Slice); isSl {
+				e.addObl(&Obligation{Name: fmt.Sprintf("%s#cover.soft[result %d of %s is non-empty]", f.prefix, i, shortKey(key)), Kind: "cover.soft", Func: f.prefix,
+					Guard: and(f.guard(), "(bvsgt (s.len "+v.T+") #x0000000000000001)"), Goal: "false", IsCover: true, Text: "result with two elements possible", Pos: f.posOf(f.curInstr)})
+			}
+		}
 	}
 	f.setResult(x, vals, names)
 }
